@@ -1,6 +1,6 @@
 CONSTANTS
   MaxNodes = 2
-  Ops = {"Neg","Identity","Add","Sub","Constant","Split","Clip","If","Call"}
+  Ops = {"Neg","Identity","Add","Sub","Constant","Split","Clip","If","Call","Call2","TypedConst","Dropout","LayerNorm","BatchNorm"}
   MaxOuts = 2
   EmitOn = TRUE
   SampleMod = 1
